@@ -103,6 +103,33 @@ def line_job(job):
         ws.rmws(w)
 
 
+def two_line_job(job):
+    """Two series entries: each is applied with its own options (the second must not inherit anything from the first)."""
+    opt1, strip1, opt2, rev2, threads = job
+    w = ws.mkws('c16b')
+    try:
+        for p in DEPTH_PATHS:
+            ws.write(w, p, scen.content([0]))
+        for p in ('x/y/b', 'y/b', 'b'):
+            ws.write(w, p, scen.content([1 if rev2 else 0]))
+        ws.write(w, 'patches/p1.patch', b'--- x/y/a\n+++ x/y/a\n' + scen.hunk_text({'cell': 1, 'from': 0, 'to': 1}))
+        ws.write(w, 'patches/p2.patch', b'--- x/y/b\n+++ x/y/b\n' + scen.hunk_text({'cell': 1, 'from': 0, 'to': 1}))
+        ws.write(w, 'series', ('p1.patch %s\np2.patch %s\n' % (opt1, opt2)).encode())
+        before = ws.snapshot(w)
+        rc, so, se = ws.push(w, ['-a', '-q', '--threads', threads])
+        after = ws.snapshot(w)
+        if ws.crashed(rc):
+            return [('crash', 'exit status %s: %s' % (rc, se[-200:]))]
+        changed = sorted(p for p in set(after) | set(before) if after.get(p) != before.get(p) and not p.startswith('.pc'))
+        want = sorted([DEPTH_PATHS[strip1], 'y/b'])
+        if rc != 0 or changed != want or after['y/b'][0] != scen.content([0 if rev2 else 1]):
+            return [('two-entries', 'series "p1.patch %s / p2.patch %s": expected exactly %s to change (the second entry with the default -p1%s), exit 0; got exit %d, changed %s'
+                     % (opt1, opt2, want, ' reversed' if rev2 else '', rc, changed))]
+        return []
+    finally:
+        ws.rmws(w)
+
+
 def check_c16(prop, tier):
     import p_tool
     res = Result(prop, tier)
@@ -120,7 +147,15 @@ def check_c16(prop, tier):
             kinds[c['verdict']['kind']] = kinds.get(c['verdict']['kind'], 0) + 1
             for cat, msg in probs:
                 res.violation(cat, msg, {'series_line': text, 'model_verdict': c['verdict'], 'file_cell_value': value, 'threads': threads})
-        res.cov['parts']['series-lines'] = {'lines': len(cases), 'by_verdict': kinds}
+        # pairs of entries: the options of one entry do not leak into the next
+        tjobs = [(o1, s1, o2, r2, t) for (o1, s1) in (('-p0', 0), ('-p2', 2), ('--strip=2', 2), ('-p 2', 2), ('-p0 -R', None), ('', 1))
+                 for (o2, r2) in (('', False), ('-R', True), ('--reverse', True), ('-p1', False)) for t in (1, 2) if s1 is not None]
+        with Pool(12) as pool:
+            touts = pool.map(two_line_job, tjobs, chunksize=2)
+        for j, probs in zip(tjobs, touts):
+            for cat, msg in probs:
+                res.violation(cat, msg, {'first_entry_options': j[0], 'second_entry_options': j[2], 'threads': j[4]})
+        res.cov['parts']['series-lines'] = {'lines': len(cases), 'by_verdict': kinds, 'two_entry_series': len(tjobs)}
         res.cov['traces_validated_against_impl'] += len(jobs)
         res.cov['evaluations'] += len(jobs)
         res.cov['distinct_nontrivial'] += len(cases)
